@@ -225,7 +225,12 @@ fn oracle(c: &Case, st: &mut Stats) -> Result<(), String> {
     1 => "deal=random-points",
     _ => "deal=iterator-adaptors(nth/skip/step_by/take/last)",
   });
-  let n = t + idx(c.extra, t.min(24) + 1);
+  let n = if c.extra % 23 == 7 && t <= 16 && k <= 4 {
+    st.class("large-collection(255..2049 shares)");
+    t + [255usize, 256, 257, 1023, 1024, 1025, 2049][(c.extra / 23) as usize % 7]
+  } else {
+    t + idx(c.extra, t.min(24) + 1)
+  };
   let mut rng2 = ScriptedRng::new(&c.prefix2, c.tail2);
   let shares: Vec<Share> = if c.mode >= 2 {
     draw_scripted(&mut dealer, &c.access, n)
@@ -309,9 +314,11 @@ fn oracle(c: &Case, st: &mut Stats) -> Result<(), String> {
     let chosen: Vec<Share> = sel.iter().map(|i| shares[*i].clone()).collect();
     let shape = sel_shape(&sel, n);
     st.class(&format!("selection={shape}"));
+    let ishape = (c.sel.rot >> 3) as u8;
+    st.class(&format!("iterator={}", ITER_SHAPES[ishape as usize % ITER_SHAPES.len()]));
     let rec = sharks
-      .recover(&chosen)
-      .map_err(|e| format!("recover failed with {} distinct shares (t={t}): {e}; selection {:?}", sel.iter().collect::<std::collections::BTreeSet<_>>().len(), sel))?;
+      .recover(shaped(ishape, &chosen))
+      .map_err(|e| format!("recover failed with {} distinct shares (t={t}, handed over as {}): {e}; selection {:?}", sel.iter().collect::<std::collections::BTreeSet<_>>().len(), ITER_SHAPES[ishape as usize % ITER_SHAPES.len()], sel))?;
     if rec != secret_bytes {
       return Err(format!("recover returned {} for secret {} (selection {:?}, t={t})", hx(&rec), hx(&secret_bytes), sel));
     }
@@ -523,7 +530,7 @@ fn pts_oracle(c: &PtsCase, st: &mut Stats) -> Result<(), String> {
   let sel = c.sel.build(shares.len(), t);
   let chosen: Vec<Share> = sel.iter().map(|i| shares[*i].clone()).collect();
   st.evals(1);
-  let got = Sharks(t as u32).recover(&chosen).map_err(|e| format!("recover refused {} distinct points under threshold {t}: {e}", sel.iter().collect::<std::collections::BTreeSet<_>>().len()))?;
+  let got = Sharks(t as u32).recover(shaped((c.sel.rot >> 3) as u8, &chosen)).map_err(|e| format!("recover refused {} distinct points under threshold {t}: {e}", sel.iter().collect::<std::collections::BTreeSet<_>>().len()))?;
   // model: first t distinct of the selection
   let mut seen = std::collections::BTreeSet::new();
   let first: Vec<usize> = sel.iter().cloned().filter(|i| seen.insert(*i)).take(t).collect();
